@@ -768,7 +768,7 @@ class Engine:
                 n = int(m.group(1))
             return Agg([copy_value(v) for _ in range(n)], 'array')
         if k == 'closure':
-            return Closure(rv[1], [self.eval_operand(frame, o) for (_, o) in rv[2]])
+            return self.build_closure(frame, rv)
         if k == 'len':
             lst, idx, sl = self.resolve(frame, rv[1])
             if sl is not None:
@@ -783,6 +783,58 @@ class Engine:
         if k == 'shallowinitbox':
             raise Unsupported('ShallowInitBox')
         raise Unsupported('rvalue kind ' + k)
+
+    def build_closure(self, frame, rv):
+        """closure aggregate.  rustc's MIR printer zips the operands with the *names of the captured variables*, so when a
+        variable is captured field by field (`self.a`, `self.b` ...) only the first operand per variable is printed.  The
+        omitted operands are the temporaries assigned between the last printed operand and the aggregate in the same
+        block; they are recovered from there and checked against the number of captures the closure body uses."""
+        fields = [self.eval_operand(frame, o) for (_, o) in rv[2]]
+        if self.closure_index is None:
+            self.build_closure_index()
+        body = self.closure_index.get(rv[1])
+        if body is None:
+            return Closure(rv[1], fields)
+        need = self._closure_ncaptures(body)
+        if need <= len(fields):
+            return Closure(rv[1], fields)
+        blk, si = getattr(self, 'cur_stmt', (None, None))
+        extra = []
+        if blk is not None and rv[2]:
+            last_op = rv[2][-1][1]
+            last_local = last_op[1].local if last_op[0] in ('copy', 'move') and not last_op[1].projs else None
+            j = si - 1
+            cand = []
+            while j >= 0:
+                st = blk.stmts[j]
+                if st[0] == 'assign' and not st[1].projs:
+                    if st[1].local == last_local:
+                        break
+                    cand.append(st[1].local)
+                j -= 1
+            else:
+                cand = None
+            if cand is not None:
+                cand.reverse()
+                extra = [frame.locals[n] for n in cand]
+        if len(fields) + len(extra) != need:
+            raise Unsupported('closure %s: %d captures used by the body, %d printed, %d recovered' % (rv[1], need, len(fields), len(extra)))
+        return Closure(rv[1], fields + extra)
+
+    def _closure_ncaptures(self, fn):
+        n = getattr(fn, 'ncaptures', None) if hasattr(fn, '__dict__') else None
+        cache = self.__dict__.setdefault('_ncap_cache', {})
+        if fn.name in cache:
+            return cache[fn.name]
+        mx = -1
+        lines = fn.src.lines
+        for i in range(fn.start, fn.end):
+            for m in re.finditer(r'\(\*?_1\)?\.(\d+):', lines[i]):
+                mx = max(mx, int(m.group(1)))
+            for m in re.finditer(r'\(_1\.(\d+):', lines[i]):
+                mx = max(mx, int(m.group(1)))
+        cache[fn.name] = mx + 1
+        return mx + 1
 
     def discriminant(self, v):
         if type(v) is Enum:
@@ -987,9 +1039,11 @@ class Engine:
                 self.steps += 1
                 if self.steps > self.max_steps:
                     raise Inconclusive('step budget (unwinding assertion) exceeded in %s' % fn.name)
-                for st in blk.stmts:
+                for si, st in enumerate(blk.stmts):
                     sk = st[0]
                     if sk == 'assign':
+                        if st[2][0] == 'closure':
+                            self.cur_stmt = (blk, si)
                         v = self.eval_rvalue(frame, st[2])
                         p = st[1]
                         if not p.projs:
